@@ -487,10 +487,9 @@ impl EventParser {
                     // Fallback: might be a type name used directly (like Status::Active)
                     return name;
                 }
-                // For qualified paths, return the last segment
-                if let Some(segment) = path.path.segments.last() {
-                    return segment.ident.to_string();
-                }
+                // A qualified path (Status::Active, module::CONSTANT) is a value whose
+                // type cannot be read off the expression: its last segment is a variant
+                // or constant name, not a type
                 "unknown".to_string()
             }
             // Tuple: (a, b, c)
@@ -498,8 +497,8 @@ impl EventParser {
                 if tuple.elems.is_empty() {
                     return "()".to_string();
                 }
-                // For now, just mark as tuple
-                "tuple".to_string()
+                // The element types are not syntactically evident
+                "unknown".to_string()
             }
             // Literal values
             Expr::Lit(lit) => match &lit.lit {
